@@ -464,3 +464,47 @@ func init() {
 		return it
 	})
 }
+
+// round 6: command streams against the table model (C06), device sets beyond the plan (C14), decoded frames that
+// outlive their receive buffer (C08)
+func init() {
+	addItems("C06", func(tier string) []Item {
+		var it []Item
+		for _, dir := range [][]int{macDown, macUp} {
+			for i, a := range dir {
+				if tier == "thorough" {
+					for _, b := range dir {
+						it = append(it, Item{PkgKey: "root", Func: "VerifC06_DecStream", Shape: []int{a, b}})
+					}
+					continue
+				}
+				it = append(it, Item{PkgKey: "root", Func: "VerifC06_DecStream", Shape: []int{a, dir[(i+1)%len(dir)]}})
+				it = append(it, Item{PkgKey: "root", Func: "VerifC06_DecStream", Shape: []int{a, a}})
+			}
+		}
+		return it
+	})
+	addItems("C08", func(tier string) []Item {
+		var it []Item
+		for _, l := range pick(tier, []int{12, 13, 14, 16, 20}, rng(12, 28)) {
+			it = append(it, Item{PkgKey: "root", Func: "VerifC10_AliasDecode", Shape: []int{l}})
+		}
+		return it
+	})
+	addItems("C14", func(tier string) []Item {
+		var it []Item
+		for n := 0; n < 14; n++ {
+			if bandNStd[n] > 8 {
+				continue
+			}
+			for pos := 0; pos <= 2; pos++ {
+				it = append(it, Item{PkgKey: "band", Func: "VerifC14_PlanBeyond", Shape: []int{n, 0, 2, pos}})
+				if tier == "thorough" {
+					it = append(it, Item{PkgKey: "band", Func: "VerifC14_PlanBeyond", Shape: []int{n, 2, 3, pos}})
+				}
+			}
+			it = append(it, Item{PkgKey: "band", Func: "VerifC14_PlanBeyond", Shape: []int{n, 1, 14, 0}})
+		}
+		return it
+	})
+}
